@@ -563,11 +563,14 @@ class Interp:
             r = self.resolver(e)
             if r is not None:
                 return self._call_helper(r[0], r[1], e, env)
+        # <driver>.session(): whatever the receiver is, the result is a driver session
+        if isinstance(f, ast.Attribute) and f.attr == 'session' and not e.args:
+            self._try(f.value, env)
+            return Opaque('session')
         # <x>.run(query, **params)
         if isinstance(f, ast.Attribute) and f.attr == self.run_attr:
             recv = self._try(f.value, env)
-            if isinstance(recv, Opaque) and recv.origin == 'session' or \
-                    (isinstance(f.value, ast.Name) and f.value.id == 'session'):
+            if isinstance(recv, Opaque) and recv.origin == 'session':
                 q = self._expr(e.args[0], env) if e.args else None
                 kws = [k.arg for k in e.keywords if k.arg]
                 star = [k for k in e.keywords if k.arg is None]
